@@ -85,7 +85,7 @@ class RunObs:
         return {'kind': self.kind, 'rc': self.rc, 'stdout': C.clip(self.out, 400), 'stderr': C.clip(self.err, 400)}
 
 
-def run_interp(binary, path, level, stdin_bytes, cpu=20, wall=120):
+def run_interp(binary, path, level, stdin_bytes, cpu=10, wall=120):
     """-> RunObs with kind in: end, exit1, encerr, crash, cpu, wall, noheader, other.
     ('end' covers normal end and a requested exit 0: indistinguishable at the process boundary.)"""
     p = C.run_proc([binary, 'run', '-O%d' % level, '--color', 'never', path], stdin_bytes, cpu=cpu, wall=wall)
